@@ -123,9 +123,10 @@ impl Runtime {
 
     pub fn push(&self, task: &Arc<Task>) {
         debug!("scheduler::push  task={:?}", task);
+        // the process may have ended and been removed meanwhile: that must not bring the scheduler loop down
         self.cache
             .upsert(task)
-            .unwrap_or_else(|err| panic!("fail to upsert task({}): {}", task.id, err));
+            .unwrap_or_else(|err| error!("fail to upsert task({}): {}", task.id, err));
         self.scher.push(task);
     }
 
